@@ -3757,6 +3757,25 @@ class DecVarSub(VarSub):
         return DecAffine(self.dro_model, self.to_affine(),
                          fixed=self.fixed, ctype='E')
 
+    def get(self, rvar=None):
+        """
+        Return the optimal solution (or decision rule coefficients) of
+        the selected entries; scenario-wise results as a Series.
+        """
+
+        full = self.dvars.get(rvar)
+        tail = () if rvar is None else rvar.to_affine().shape
+
+        def pick(value):
+            value = np.asarray(value).reshape((self.dvars.size, ) + tail)
+            return value[self.indices]
+
+        if isinstance(full, pd.Series):
+            return pd.Series([pick(value) for value in full],
+                             index=full.index)
+        else:
+            return pick(full)
+
     def __call__(self, *args):
 
         return self.to_affine()(*args)
